@@ -290,14 +290,19 @@ def _fallback_model(fl: Flow) -> tuple[Any, Any, Any, list[tuple[int, ast.Call]]
             if ta is not None and is_fb(ta[0], nid):
                 cfgd = assign.get("configured")
                 return None if cfgd is None else ((not cfgd) if ta[1] else cfgd)
+            if ta is not None and isinstance(ta[0], ast.Name):
+                o = fl.origin(ta[0], nid, scenario=lambda _f: memo[key])
+                if o and all(q.kind == "expr" and any(unawait(q.node) is c for _n, c in recv) for q in o):
+                    return not ta[1]  # what receive() returned is a sample, never None
             if isinstance(e, (ast.Name, ast.Attribute)) and is_fb(e, nid):
                 return assign.get("configured")
             if isinstance(e, ast.Call) and method_call(e, "self", "_is_value_valid") and len(e.args) + len(e.keywords) == 1:
                 arg = (e.args + [k.value for k in e.keywords])[0]
                 o = fl.origin1(arg, nid)
-                if o is not None and o.kind == "expr" and isinstance(o.node, ast.Attribute) and o.node.attr == "value" \
-                        and fl.is_node_any(o.node.value, [c for _n, c in recv], o.nid):
-                    return assign.get("valid")
+                if o is not None and o.kind == "expr" and isinstance(o.node, ast.Attribute) and o.node.attr == "value":
+                    vo = fl.origin(o.node.value, o.nid, scenario=lambda _f: memo[key])
+                    if vo and all(q.kind == "expr" and any(unawait(q.node) is c for _n, c in recv) for q in vo):
+                        return assign.get("valid")
             return None
 
         base = pruned(fl.cfg, lifted(fl, atom, scenario=lambda _f: memo[key]), normal_only=normal_only)
